@@ -245,8 +245,9 @@ def run(pid, tier, seed, replay=None):
         validate(trace, 'recorded_damaged_packets_release_build')
         os.remove(trace)
 
-    if pid == 'C06':
-        # second half of C06: reading a header from io::Read == decoding it from a slice (13 header types, every fault position)
+    if pid in ('C06', 'C07'):
+        # second half of C06: reading a header from io::Read == decoding it from a slice (13 header types, every fault position);
+        # for C07 the same pipeline judges the fields of the length errors the readers return
         from . import iojob
         v2, st2, notes2, samples2 = iojob.run_io(pid, tier, seed, wd, binary)
         violations.extend(v2)
